@@ -173,7 +173,7 @@ def _readcode(case, d):
                 if code is None or code.startswith('!!raised'):
                     fails.append(dict(lang=lang, mode=mode, kind='listed-but-withheld', detail=str(code)[:200]))
                     continue
-                cwd = dict(rel=path, base=d, abs=d)[mode]
+                cwd = dict(rel=path, base=d, abs='/')[mode]     # absolute paths must work from anywhere
                 kind, detail = evaluate(lang, code, cwd, path, stored)
                 ran += 1
                 if kind:
